@@ -58,6 +58,7 @@ type Contract struct {
 	Line     int
 	Uses     []Clause // "assert"/"use" hints (checked then assumed) at entry
 	NoAuto   bool
+	AfterCall map[string]*Interference // callee short name -> interference applied after each call (rely)
 	AtCall   map[string][]Clause // callee short name -> obligations evaluated in the caller's scope at each call
 	ModNone  bool
 	autoApplied bool
@@ -81,10 +82,128 @@ func splitLabel(s string) (string, string) {
 	return "", s
 }
 
+// Interference: after the named call other goroutines may have run: the listed locations are
+// havocked and the rely relation (old() = the state right after the call) is assumed.
+type Interference struct {
+	Havoc []*Node
+	Rely  Clause
+}
+
+type macro struct {
+	params []string
+	body   string
+}
+
+var macros = map[string]macro{}
+var identRe = regexp.MustCompile(`[A-Za-z_][A-Za-z0-9_]*`)
+
+// expandMacros textually expands NAME(args) for every macro defined with
+//   //@ macro NAME(p1, p2) = EXPR
+// (macros are global across contract files; arguments are substituted by identifier).
+func expandMacros(src string) string {
+	for iter := 0; iter < 20; iter++ {
+		changed := false
+		for name, m := range macros {
+			for {
+				i := findCall(src, name)
+				if i < 0 {
+					break
+				}
+				// parse arguments
+				j := i + len(name) + 1
+				depth := 1
+				k := j
+				for k < len(src) && depth > 0 {
+					switch src[k] {
+					case '(', '[':
+						depth++
+					case ')', ']':
+						depth--
+					}
+					k++
+				}
+				args := splitTop(src[j : k-1])
+				if len(args) != len(m.params) {
+					break
+				}
+				sub := map[string]string{}
+				for pi, pn := range m.params {
+					sub[pn] = "(" + args[pi] + ")"
+				}
+				body := identRe.ReplaceAllStringFunc(m.body, func(id string) string {
+					if v, ok := sub[id]; ok {
+						return v
+					}
+					return id
+				})
+				src = src[:i] + "(" + body + ")" + src[k:]
+				changed = true
+			}
+		}
+		if !changed {
+			break
+		}
+	}
+	return src
+}
+
+func findCall(src, name string) int {
+	from := 0
+	for {
+		i := strings.Index(src[from:], name+"(")
+		if i < 0 {
+			return -1
+		}
+		i += from
+		if i == 0 || !(src[i-1] == '_' || src[i-1] == '.' || (src[i-1] >= 'a' && src[i-1] <= 'z') || (src[i-1] >= 'A' && src[i-1] <= 'Z') || (src[i-1] >= '0' && src[i-1] <= '9')) {
+			return i
+		}
+		from = i + 1
+	}
+}
+
 func ParseContractFile(path, pkgPath string) ([]*Contract, error) {
 	data, err := os.ReadFile(path)
 	if err != nil {
 		return nil, err
+	}
+	// first pass: macros (with continuation lines)
+	{
+		var cur string
+		flushM := func() {
+			if cur == "" {
+				return
+			}
+			t := strings.TrimSpace(strings.TrimPrefix(cur, "macro "))
+			if k := strings.Index(t, "="); k > 0 {
+				head := strings.TrimSpace(t[:k])
+				body := strings.TrimSpace(t[k+1:])
+				if a := strings.Index(head, "("); a > 0 && strings.HasSuffix(head, ")") {
+					var ps []string
+					for _, x := range strings.Split(head[a+1:len(head)-1], ",") {
+						ps = append(ps, strings.TrimSpace(x))
+					}
+					macros[head[:a]] = macro{ps, body}
+				}
+			}
+			cur = ""
+		}
+		for _, line := range strings.Split(string(data), "\n") {
+			t := strings.TrimSpace(line)
+			if !strings.HasPrefix(t, "//@") {
+				continue
+			}
+			t = strings.TrimSpace(strings.TrimPrefix(t, "//@"))
+			if strings.HasPrefix(t, "macro ") {
+				flushM()
+				cur = t
+			} else if strings.HasPrefix(t, "|") && cur != "" {
+				cur += " " + strings.TrimSpace(t[1:])
+			} else {
+				flushM()
+			}
+		}
+		flushM()
 	}
 	var out []*Contract
 	var cur *Contract
@@ -93,6 +212,7 @@ func ParseContractFile(path, pkgPath string) ([]*Contract, error) {
 		line int
 	}
 	var dirs []dir
+	inMacro := false
 	flush := func() error {
 		if cur == nil {
 			return nil
@@ -121,7 +241,15 @@ func ParseContractFile(path, pkgPath string) ([]*Contract, error) {
 			t = strings.TrimSpace(t[:k])
 		}
 		switch {
+		case strings.HasPrefix(t, "macro "):
+			if err := flush(); err != nil {
+				return nil, err
+			}
+			inMacro = true
+		case strings.HasPrefix(t, "|") && inMacro:
+			// continuation of a macro definition (handled in the first pass)
 		case strings.HasPrefix(t, "func ") || strings.HasPrefix(t, "iface "):
+			inMacro = false
 			if err := flush(); err != nil {
 				return nil, err
 			}
@@ -150,6 +278,7 @@ func applyDirective(c *Contract, t string, line int) error {
 	rest := strings.TrimSpace(strings.TrimPrefix(t, f[0]))
 	mk := func(s string) (Clause, error) {
 		lbl, e := splitLabel(s)
+		e = expandMacros(e)
 		n, err := ParseExpr(e)
 		if err != nil {
 			return Clause{}, err
@@ -185,6 +314,30 @@ func applyDirective(c *Contract, t string, line int) error {
 			c.AtCall = map[string][]Clause{}
 		}
 		c.AtCall[f[1]] = append(c.AtCall[f[1]], cl)
+	case "after_call":
+		// after_call <Callee> havoc loc, loc assume E
+		hi := strings.Index(t, " havoc ")
+		ai := strings.Index(t, " assume ")
+		if len(f) < 5 || hi < 0 || ai < hi {
+			return fmt.Errorf("after_call <Callee> havoc locs assume E")
+		}
+		inf := &Interference{}
+		for _, part := range splitTop(t[hi+len(" havoc ") : ai]) {
+			n, err := ParseExpr(expandMacros(part))
+			if err != nil {
+				return err
+			}
+			inf.Havoc = append(inf.Havoc, n)
+		}
+		cl, err := mk(strings.TrimSpace(t[ai+len(" assume "):]))
+		if err != nil {
+			return err
+		}
+		inf.Rely = cl
+		if c.AfterCall == nil {
+			c.AfterCall = map[string]*Interference{}
+		}
+		c.AfterCall[f[1]] = inf
 	case "assume_ensures":
 		cl, err := mk(rest)
 		if err != nil {
@@ -202,7 +355,7 @@ func applyDirective(c *Contract, t string, line int) error {
 		if k < 0 {
 			return fmt.Errorf("let needs =")
 		}
-		n, err := ParseExpr(strings.TrimSpace(rest[k+1:]))
+		n, err := ParseExpr(expandMacros(strings.TrimSpace(rest[k+1:])))
 		if err != nil {
 			return err
 		}
